@@ -17,12 +17,14 @@ from unittest import mock
 from twisted.internet.task import Clock, Cooperator
 from zope.interface import implementer
 from twisted.internet.interfaces import ITransport, IConsumer
+from twisted.internet.protocol import Protocol, Factory
 
 from wormhole import _interfaces
+from wormhole._interfaces import ISubChannel
 from wormhole.eventual import EventualQueue
 from wormhole._dilation import manager as dm
 from wormhole._dilation import connector as dconn
-from wormhole._dilation.connection import Ping, Pong, KCM, encode_record, T_PING
+from wormhole._dilation.connection import Ping, Pong, KCM, Open, Data, encode_record, T_PING
 from wormhole._dilation.encode import to_be4, from_be4
 
 from ..core import Result
@@ -84,6 +86,7 @@ class _Conn:
         self.world = world
         self.cid = cid
         self.transport = _Transport()
+        self.read_paused = False     # Inbound told us pauseProducing(): nothing is delivered until resumeProducing()
 
     def send_record(self, r):
         self.world.on_record(self, r)
@@ -93,10 +96,29 @@ class _Conn:
         self.world.on_disconnect(self, caller)
 
     def pauseProducing(self):
-        pass
+        self.read_paused = True
 
     def resumeProducing(self):
-        pass
+        self.read_paused = False
+
+
+@implementer(ISubChannel)
+class _Sub:
+    """a subchannel as Inbound sees it in its flow-control calls: a token"""
+
+    def __init__(self, k):
+        self.k = k
+
+
+class _BoomProtocol(Protocol):
+    """an application protocol whose handler has a bug"""
+
+    def dataReceived(self, data):
+        raise RuntimeError("application handler failed")
+
+
+class _BoomFactory(Factory):
+    protocol = _BoomProtocol
 
 
 @implementer(ITransport, IConsumer)
@@ -112,6 +134,7 @@ class _RTransport:
         self.frames = 0
         self.peer = ToyNoise()       # the follower's end of the Noise session
         self.producer = None
+        self.read_paused = False
 
     def write(self, data):
         if self.closed:
@@ -149,10 +172,10 @@ class _RTransport:
         self.producer = None
 
     def pauseProducing(self):
-        pass
+        self.read_paused = True
 
     def resumeProducing(self):
-        pass
+        self.read_paused = False
 
     def stopProducing(self):
         pass
@@ -195,6 +218,12 @@ class World:
         self.reported = set()    # connections whose transport close has been reported to the Manager
         self.stop_called = False
         self.offgrid = False
+        self.subs = {}           # k -> subchannel token registered with the real Inbound
+        self.cons = set()        # consumers (k) that are paused right now, as the harness knows it
+        self.peer_seq = 0        # seqnum of the peer's next Open/Data
+        self.next_scid = 2
+        if real:
+            self.m._subprotocol_factories.register("boom", _BoomFactory())
 
     # -- observation
     def now(self):
@@ -236,6 +265,36 @@ class World:
         """pending DelayedCalls other than the eventual queue's zero-delay turn"""
         return [c for c in self.clock.getDelayedCalls() if getattr(c.func, "__name__", "") != "_turn"]
 
+    def read_paused(self):
+        c = self.m._connection
+        if c is None:
+            return False
+        return self.conns[c.cid].read_paused if self.real else c.read_paused
+
+    def sub(self, k):
+        if k not in self.subs:
+            self.subs[k] = _Sub(k)
+            self.m._inbound.subchannel_local_open(1000 + k, self.subs[k])
+        return self.subs[k]
+
+    def bad_segment(self, idx):
+        """one TCP segment: a Data record for a subchannel whose application handler raises, then the Pong.  What the
+        reactor does with an exception out of dataReceived is to drop the transport."""
+        p = self.m._connection
+        t = self.conns[p.cid]
+        scid = self.next_scid
+        self.next_scid += 2
+        p.dataReceived(_frame(t.peer.encrypt(encode_record(Open(self.peer_seq, scid, "boom")))))
+        self.peer_seq += 1
+        pid = self.ids[idx]
+        seg = _frame(t.peer.encrypt(encode_record(Data(self.peer_seq, scid, b"x")))) + \
+            _frame(t.peer.encrypt(encode_record(Pong(pid))))
+        self.peer_seq += 1
+        try:
+            p.dataReceived(seg)
+        except Exception:
+            self.close_transport(p.cid, flush=False)
+
     def cid_of(self, c):
         if c is None:
             return "-"
@@ -261,7 +320,8 @@ class World:
         drops = ";".join(f"{c}@{t}" for c, t in self.drops)
         ab = ";".join(f"{c}@{t}" for c, t in self.abandons)
         return (f"t={self.now()} M={automat_state(m)} role={role} TT={tt} timer={timer} conn={self.cid_of(m._connection)} "
-                f"out={self.cid_of(m._outbound._connection)} paused={'true' if m._outbound._paused else 'false'} pings=[{pings}] nwire={len(self.wire)} wire=[{wire}] "
+                f"out={self.cid_of(m._outbound._connection)} paused={'true' if m._outbound._paused else 'false'} "
+                f"rp={'true' if self.read_paused() else 'false'} cons=[{','.join(str(k) for k in sorted(getattr(x, 'k', -1) for x in m._inbound._paused_subchannels))}] pings=[{pings}] nwire={len(self.wire)} wire=[{wire}] "
                 f"drops=[{drops}] abandons=[{ab}]")
 
     # -- operations (each returns the exception class name or None)
@@ -353,6 +413,25 @@ class World:
             return self.call(lambda: m.rx_RECONNECTING())
         if k == "reconnect":
             return self.call(lambda: m.rx_RECONNECT())
+        if k == "cpause":
+            self.cons.add(o[1])
+            sc = self.sub(o[1])
+            return self.call(lambda: m._inbound.subchannel_pauseProducing(sc))
+        if k == "cresume":
+            self.cons.discard(o[1])
+            sc = self.sub(o[1])
+            return self.call(lambda: m._inbound.subchannel_resumeProducing(sc))
+        if k == "cstop":
+            self.cons.discard(o[1])
+            sc = self.sub(o[1])
+            return self.call(lambda: m._inbound.subchannel_stopProducing(sc))
+        if k == "cclose":
+            self.cons.discard(o[1])
+            sc = self.sub(o[1])
+            del self.subs[o[1]]
+            return self.call(lambda: m._inbound.subchannel_closed(1000 + o[1], sc))
+        if k == "badseg":
+            return self.call(lambda: self.bad_segment(o[1]))
         if k == "pause":
             # what the connection's transport does when its send buffer is full (IPushProducer)
             return self.call(lambda: m._outbound.pauseProducing())
@@ -414,6 +493,9 @@ def _run(case, T, leader, real=False):
     seen_disc = [0]
     seen_reconnect = [0]
     nmade = [0]
+    nbad = [0]
+    held = []            # Pongs waiting in the socket buffer of a read-paused connection
+    at_socket = {}       # ping idx -> tick its Pong reached the host while the connection was paused for no consumer
     expiries = [0]
     paused_expiry = [0]
     late_expiry = [0]
@@ -442,6 +524,7 @@ def _run(case, T, leader, real=False):
                     clock_timers=[c.getTime() for c in w.timers()],
                     state=automat_state(m), npings=len(w.ids), stop=w.stop_called, ndrops=len(w.drops),
                     dead=(m._connection is not None and getattr(m._connection, "cid", -1) in w.closed),
+                    rp=w.read_paused(), cons=sorted(w.cons),
                     tt=automat_state(m._traffic) if m._traffic is not None else None)
 
     def is_legal(o):
@@ -463,7 +546,10 @@ def _run(case, T, leader, real=False):
             return st == "FLUSHING" and leader
         if k == "reconnect":
             return st in ("CONNECTED", "CONNECTING", "LONELY") and not leader
-        if k in ("pong", "pause", "resume"):
+        if k in ("pong", "badseg"):
+            return (w.m._connection is not None and getattr(w.m._connection, "cid", -1) not in w.closed
+                    and not w.read_paused() and (k == "pong" or real))
+        if k in ("pause", "resume"):
             return w.m._connection is not None and getattr(w.m._connection, "cid", -1) not in w.closed
         return True
 
@@ -488,12 +574,16 @@ def _run(case, T, leader, real=False):
         data = o[1] if len(o) > 1 else None
         if o[0] == "lost":
             data = dict(closed=closed, using=before[0][0])
-        if o[0] == "pong":
+        if o[0] in ("pong", "badseg"):
             w.scan_pings()
             data = (o[1], o[1] < len(w.ids) and w.ids[o[1]] in w.m._pings_outstanding)
+        if o[0] == "badseg" and legal_now and conn_now() is not None:
+            w.reported.add(conn_now())     # at HEAD the reactor drops the transport: its close is reported here
         err = w.op(o, closed=closed)
         kind = o[0]
         line = f"please {1 if leader else 0}" if o[0] == "please" else " ".join(str(x) for x in o)
+        if o[0] == "badseg":
+            line = "badseg"
         if o[0] == "made" and len(o) > 1:
             if o[1] == "prekcm":
                 return               # a connection that died before its KCM never reaches the Connector: nothing to compare
@@ -550,8 +640,17 @@ def _run(case, T, leader, real=False):
         seq[0] += 1
         pending.append([t, seq[0], o])
 
+    def release_held():
+        cur = w.m._connection
+        keep = [o for o in held if cur is not None and getattr(cur, "cid", None) == o[2] and o[2] not in w.closed]
+        held[:] = keep
+        while held and not w.read_paused() and w.m._connection is not None:
+            o = held.pop(0)
+            do(["pong", o[1]])
+
     def react(policy, seg_start):
         """the scripted peer / network: look at what the Manager just did"""
+        release_held()
         while seen_wire[0] < len(w.wire):
             cid, idx, t = w.wire[seen_wire[0]]
             seen_wire[0] += 1
@@ -623,7 +722,19 @@ def _run(case, T, leader, real=False):
                 cur = w.m._connection
                 if cur is None or getattr(cur, "cid", None) != o[2] or o[2] in w.closed:
                     continue     # travelled on a connection that is gone
-                do(["pong", o[1]])
+                if w.read_paused():
+                    # the Pong has reached the Leader's host but the paused transport does not read it.  If no consumer
+                    # is paused the pause is not the application's doing: the peer HAS answered.
+                    if not w.cons and o[1] not in at_socket:
+                        at_socket[o[1]] = w.now()
+                    held.append(o)
+                    continue
+                nbad[0] += 1
+                if real and policy and policy.get("bad_every") and nbad[0] % policy["bad_every"] == 0 \
+                        and o[1] < len(w.ids) and is_legal(["badseg", o[1]]):
+                    do(["badseg", o[1]])
+                else:
+                    do(["pong", o[1]])
             elif o[0] == "lost":
                 if o[1] in w.reported or o[1] in w.closed:
                     continue     # that transport's close has been reported already
@@ -687,7 +798,7 @@ def _run(case, T, leader, real=False):
         tags.append("stall")
     if late_expiry[0]:
         tags.append("late-expiry")
-    viol = oracle(w, events, T, leader, illegal[0], tags)
+    viol = oracle(w, events, T, leader, illegal[0], tags, at_socket)
     for idx, t, cid, opline in unwritten[:1]:
         viol.append(("ping-not-written",
                      f"T={T} ticks: ping #{idx} generated at tick {t} ('{opline}') while connection {cid} was in use was never "
@@ -700,7 +811,8 @@ def _run(case, T, leader, real=False):
 # ---------------------------------------------------------------------------
 # the property, stated over what the real code did
 
-def oracle(w, events, T, leader, illegal, tags):
+def oracle(w, events, T, leader, illegal, tags, at_socket=None):
+    at_socket = at_socket or {}
     """`events` = [(kind, time_ticks, data, err, snapshot-after)] in order.  Only the prefix before
     the first exception is judged (an op that raises is an illegal use by the collaborator)."""
     viol = []
@@ -727,6 +839,11 @@ def oracle(w, events, T, leader, illegal, tags):
             add("timer-without-connection", f"after '{kind}' at tick {t}: no connection in use but a timer is pending for {pend} s")
         if pend and snap["stop"]:
             add("timer-after-stop", f"after '{kind}' at tick {t}: stop() was called but a timer is pending for {pend} s")
+        if snap.get("rp") and not snap.get("cons"):
+            add("read-paused-without-consumer",
+                f"T={T} ticks: after '{kind}' at tick {t} connection {snap['conn']} is read-paused although no subchannel consumer "
+                f"is paused (Inbound still lists {sorted(getattr(x, 'k', -1) for x in w.m._inbound._paused_subchannels)}): "
+                f"no Pong can be read, the monitor will drop a peer that answers every ping")
         if snap.get("dead"):
             dropped_it = any(c == snap["conn"] for c, _ in w.drops)
             add("no-new-generation" if dropped_it else "dead-connection-in-use",
@@ -766,14 +883,18 @@ def oracle(w, events, T, leader, illegal, tags):
             cur = dict(cid=snap["conn"], start=t, pongs=[], end=None)
             epochs.append(cur)
         elif cur is not None and cur["end"] is None:
-            if kind in ("lost", "stop", "reconnect"):
+            if kind in ("lost", "stop", "reconnect") or (kind == "badseg" and snap["conn"] != cur["cid"]):
                 cur["end"] = t
-            elif kind == "pong" and data[1]:
-                cur["pongs"].append((t, data[0]))
-    answered = {}     # ping idx -> tick its pong was delivered (while it was outstanding)
+            elif kind in ("pong", "badseg") and data[1] and (kind == "pong" or snap["conn"] == cur["cid"]):
+                # (a Pong stranded behind a record whose handler raised has reached the transport but not the monitor)
+                if kind == "pong":
+                    cur["pongs"].append((t, data[0]))
+    answered = {}     # ping idx -> tick its Pong reached the Leader's transport (delivered to dataReceived / got_record)
     for kind, t, data, err, snap in legal:
-        if kind == "pong" and data[1]:
+        if kind in ("pong", "badseg") and data[1]:
             answered[data[0]] = t
+    for idx, t in at_socket.items():
+        answered[idx] = min(t, answered.get(idx, t))
     for ep in epochs:
         cid = ep["cid"]
         ep_end = ep["end"] if ep["end"] is not None else end_t
@@ -830,10 +951,12 @@ SETUP = [["start"], ["please"], ["made"]]
 
 
 def pol(rtt=0, drop_every=0, silent_from=None, loss_delay=None, reconnect_delay=None, rtts=None, pauses=None, stalls=None, silent_until=None,
-        made_variants=None):
+        made_variants=None, bad_every=None):
     p = dict(rtt=rtt, drop_every=drop_every, silent_from=silent_from, loss_delay=loss_delay, reconnect_delay=reconnect_delay)
     if rtts is not None:
         p["rtts"] = rtts
+    if bad_every is not None:
+        p["bad_every"] = bad_every   # real world: every n-th Pong arrives in one segment behind a record whose handler raises
     if made_variants is not None:
         p["made_variants"] = made_variants   # real world: how the peer's next connections fare (None / "dead" / "prekcm")
     if silent_until is not None:
@@ -899,6 +1022,25 @@ def corpus():
                                                            ["made"], ["run", 4 * T, pol(rtt=1)], ["pause"], ["adv", T], ["stop"], ["resume"],
                                                            ["lost"]]))
         out.append(dict(T=T, leader=False, script=SETUP + [["pause"], ["adv", 2 * T], ["resume"], ["adv", T]]))
+        # inbound flow control: a subchannel consumer pauses (the connection stops reading: Pongs wait in the socket
+        # buffer), for part of an interval / across an expiry / for two intervals; the connection is lost while paused and
+        # the consumer resumes / stops / closes during the outage, or stays paused into the next connection and lets go
+        # later; two consumers; in both worlds
+        for world in ("stand-in", "real"):
+            W = dict(T=T, leader=True) if world == "stand-in" else dict(T=T, leader=True, world="real")
+            for let_go in ("cresume", "cstop", "cclose"):
+                out.append(dict(W, script=SETUP + [["run", T + 1, pol(rtt=1)], ["cpause", 0], ["adv", 1], ["lost"], ["adv", 1],
+                                                   [let_go, 0], ["reconnecting"], ["made"], ["run", 5 * T, pol(rtt=1)]]))
+                out.append(dict(W, script=SETUP + [["run", T - 1, pol(rtt=1)], ["cpause", 0], ["run", 2, pol(rtt=1)], [let_go, 0],
+                                                   ["run", 4 * T, pol(rtt=1)]]))
+            out.append(dict(W, script=SETUP + [["run", T + 1, pol(rtt=1)], ["cpause", 0], ["lost"], ["reconnecting"], ["made"],
+                                               ["run", T + 2, pol(rtt=1)], ["cresume", 0], ["run", 4 * T, pol(rtt=1)]]))
+            out.append(dict(W, script=SETUP + [["cpause", 0], ["cpause", 1], ["run", T + 1, pol(rtt=1)], ["cresume", 0], ["lost"],
+                                               ["cclose", 1], ["cpause", 0], ["reconnecting"], ["made"], ["run", T, pol(rtt=1)],
+                                               ["cstop", 0], ["run", 3 * T, pol(rtt=1)]]))
+            out.append(dict(W, script=SETUP + [["run", 1, pol(rtt=1)], ["cpause", 0], ["run", 3 * T, pol(rtt=1, loss_delay=1,
+                                                                                                        reconnect_delay=1)],
+                                               ["cresume", 0], ["run", 3 * T, pol(rtt=1)]]))
         # REAL Connector + DilatedConnectionProtocol: responsive; silent -> drop -> slow close -> reconnect; the winning
         # transport closing in the turn between the peer's KCM and select() (first connection, and later ones), before
         # its KCM, right after select, in mid-interval, after the drop; stop; flow control
@@ -915,6 +1057,10 @@ def corpus():
         out.append(dict(R, script=SETUP + [["lost"], ["reconnecting"], ["made"], ["run", T + 1, pol(rtt=1)], ["stop"], ["adv", 1], ["lost"],
                                            ["adv", 2 * T]]))
         out.append(dict(R, script=SETUP + [["run", 6 * T, pol(rtt=1, pauses=[[T - 1, 2]], stalls=[[2 * T - 1, 3]])]]))
+        # one TCP segment [Data whose application handler raises, Pong] on an otherwise idle link: first, second, every Pong
+        for n in (1, 2):
+            out.append(dict(R, script=SETUP + [["run", 7 * T, pol(rtt=1, bad_every=n, loss_delay=1, reconnect_delay=1)]]))
+        out.append(dict(R, script=SETUP + [["run", 7 * T, pol(rtt=T - 1, bad_every=3)]]))
     # stale / duplicate / unknown pongs
     out.append(dict(T=4, leader=True, script=SETUP + [["adv", 5], ["pong", 0], ["pong", 0], ["pong", 7], ["adv", 2], ["pong", 1],
                                                        ["adv", 12]]))
@@ -973,6 +1119,11 @@ def rand_real_case(rng):
             continue
         p = rand_policy(rng, T)
         p["made_variants"] = [rng.choice([None, None, "dead", "prekcm"]) for _ in range(3)] + [None]
+        if rng.random() < 0.3:
+            p["bad_every"] = rng.choice([1, 2, 3])
+        if rng.random() < 0.35:
+            script += [[rng.choice(["cpause", "cpause", "cresume", "cstop", "cclose"]), rng.randrange(2)]
+                       for _ in range(rng.randrange(1, 3))]
         script.append(["run", rng.randrange(1, 7 * T), p])
         r = rng.random()
         if r < 0.3:
@@ -1001,6 +1152,9 @@ def rand_case(rng, adversarial=False):
             script.append(["run", rng.randrange(0, 3 * T), rand_policy(rng, T)])
             if rng.random() < 0.7:
                 script += [["lost"], ["adv", rng.randrange(0, 3 * T)]]
+        elif r < 0.84:
+            script += [[rng.choice(["cpause", "cpause", "cresume", "cstop", "cclose"]), rng.randrange(2)]
+                       for _ in range(rng.randrange(1, 3))]
         elif r < 0.86:
             script += [[rng.choice(["pause", "resume"])], ["adv", rng.choice([1, T - 1, T, T + 1])], [rng.choice(["pause", "resume"])]]
         elif r < 0.88:
@@ -1033,6 +1187,18 @@ def exhaustive(T=4):
         for rd in (0, 1, T - 1, T, 2 * T):
             out.append(dict(T=T, leader=True, script=SETUP + [["run", 8 * T, pol(rtt=1, silent_until=2 * T + 1, loss_delay=ld,
                                                                                   reconnect_delay=rd)]]))
+    # consumer pauses at a, the connection is lost at b, the consumer lets go (or not) before the reconnect at c
+    for a in range(0, T + 2):
+        for b in range(0, T + 1, 2):
+            for let_go in ("cresume", "cstop", "cclose", None):
+                for world in (None, "real"):
+                    c = dict(T=T, leader=True, script=SETUP + [["run", a, pol(rtt=1)], ["cpause", 0], ["run", b, pol(rtt=1)], ["lost"],
+                                                               ["adv", 1]] + ([[let_go, 0]] if let_go else []) +
+                             [["reconnecting"], ["made"], ["run", 3 * T, pol(rtt=1)]] + ([] if let_go else [["cresume", 0]]) +
+                             [["run", 3 * T, pol(rtt=1)]])
+                    if world:
+                        c["world"] = world
+                    out.append(c)
     # every pause window [a, a+d) over the first two expiries, responsive peer
     for a in range(0, 2 * T + 2):
         for d in range(1, T + 3):
@@ -1082,7 +1248,7 @@ def shrink(case):
                 for d in (seg[1] // 2, seg[1] - 1):
                     yield dict(case, script=sc[:i] + [["run", d, seg[2]]] + sc[i + 1:])
             p = seg[2]
-            for key, val in (("drop_every", 0), ("rtts", None), ("loss_delay", None), ("reconnect_delay", None), ("pauses", None), ("stalls", None)):
+            for key, val in (("drop_every", 0), ("rtts", None), ("loss_delay", None), ("reconnect_delay", None), ("pauses", None), ("stalls", None), ("bad_every", None)):
                 if p.get(key):
                     q = dict(p)
                     q[key] = val
